@@ -105,6 +105,14 @@ func evaluateCondition(skel *Skeleton, orig []byte, cond *Condition) error {
 		return fmt.Errorf("condition: %w", err)
 	}
 
+	if cmp == cmpUnordered {
+		// a NaN operand is equal to nothing and ordered with nothing: only NOT_EQUAL holds
+		if cond.Op != CondNotEqual {
+			return ErrConditionNotMet
+		}
+		return nil
+	}
+
 	met := false
 	switch cond.Op {
 	case CondEqual:
@@ -214,14 +222,19 @@ func cmpUint64(a, b uint64) int {
 	return 0
 }
 
+// cmpUnordered is returned by compareLeafBytes when an operand is NaN.
+const cmpUnordered = 2
+
 func cmpFloat64(a, b float64) int {
 	switch {
 	case a < b:
 		return -1
 	case a > b:
 		return 1
+	case a == b:
+		return 0
 	}
-	return 0
+	return cmpUnordered
 }
 
 func cmpBool(a, b bool) int {
